@@ -259,8 +259,14 @@ func analyseCuts(events []Event, s *Solver) (*CutReport, error) {
 			// goroutines never started at the cut but started later count as unfinished only if they have events
 			var unfinishedOthers []string
 			for g := 1; g < n; g++ {
-				if len(seq[g]) > 0 {
-					unfinishedOthers = append(unfinishedOthers, fmt.Sprintf("(< %s %d)", p(g), len(seq[g])))
+				// every synchronisation event of every other goroutine must have happened; only the goroutine's
+				// own final return (after its last synchronisation, e.g. log output of the snapper stage) may be pending
+				need := len(seq[g])
+				if need > 0 && seq[g][need-1].Kind == "return" {
+					need--
+				}
+				if need > 0 {
+					unfinishedOthers = append(unfinishedOthers, fmt.Sprintf("(< %s %d)", p(g), need))
 				}
 			}
 			q2 := base + fmt.Sprintf("(assert (> p0 %d))\n(assert (or %s))\n", marker, strings.Join(unfinishedOthers, " "))
